@@ -84,7 +84,7 @@ type Node struct {
 	Tag  string   `json:"tag,omitempty"`  // el
 	M    string   `json:"m,omitempty"`    // el: data-m marker (unique per template element)
 	If   string   `json:"if,omitempty"`   // el: v-if path
-	For  *For     `json:"for,omitempty"`  // el: v-for
+	For  *For     `json:"for,omitempty"`  // el: v-for; slot: v-for written on the <slot> element itself
 	Bind []KV     `json:"bind,omitempty"` // el / slot / inc, see KV
 	Stat []KV     `json:"stat,omitempty"` // inc: static props
 	T    []Part   `json:"t,omitempty"`    // text
